@@ -36,7 +36,7 @@ class SnCurveFitter:
         >>> snCurveFitter = SnCurveFitter( data, fatigueLimit )
         '''
         # Edge case check
-        data = np.array( data )
+        data = np.array( data, dtype=float )
         if len( data.shape ) != 2:
             raise ValueError( "Input data dimension should be 2" )
         if data.shape[ 0 ] < 2:
@@ -79,6 +79,7 @@ class SnCurveFitter:
         --------
         >>> rst = snCurveFitter.getN( 2 )
         '''
+        S = float( S )
         if S <= 0:
             raise ValueError( "S should be larger than 0" )
 
